@@ -4,16 +4,18 @@ ID=$1; W=/tmp/wt-$ID; S=$W/SEEDED
 export CARGO_TARGET_DIR=$W/target CARGO_NET_OFFLINE=true
 cd $W || exit 2
 DEMO_CMD=$(python3 -c "import json;print(json.load(open('$S/meta.json'))['demo_cmd'])")
-# make sure demo file is in place (agents left it or described where it goes)
 git checkout -- . 2>/dev/null
+[ -f $S/demo.diff ] && git apply $S/demo.diff 2>/dev/null
 r3=$(sh -c "$DEMO_CMD" >/tmp/confirm-$ID-3.log 2>&1; echo $?)
 git apply $S/patch.diff || { echo "patch failed"; exit 2; }
 r2=$(sh -c "$DEMO_CMD" >/tmp/confirm-$ID-2.log 2>&1; echo $?)
-# suite with change, demo test moved aside
-mkdir -p /tmp/demo-aside-$ID; for f in $(git status --short | grep '^??' | awk '{print $2}' | grep -v SEEDED | grep '\.rs$'); do mv $f /tmp/demo-aside-$ID/; echo $f >> /tmp/demo-aside-$ID/list; done
+# suite with the change only: demo moved aside (untracked files/dirs other than SEEDED and target), demo.diff reverted
+[ -f $S/demo.diff ] && git apply -R $S/demo.diff 2>/dev/null
+rm -rf /tmp/demo-aside-$ID; mkdir -p /tmp/demo-aside-$ID
+git status --short | grep '^??' | awk '{print $2}' | grep -v '^SEEDED' | grep -v '^target' > /tmp/demo-aside-$ID/list
+i=0; for f in $(cat /tmp/demo-aside-$ID/list); do i=$((i+1)); mv $f /tmp/demo-aside-$ID/item$i; done
 r1=$(cargo test --workspace --offline >/tmp/confirm-$ID-1.log 2>&1; echo $?)
-# restore
-if [ -f /tmp/demo-aside-$ID/list ]; then for f in $(cat /tmp/demo-aside-$ID/list); do mv /tmp/demo-aside-$ID/$(basename $f) $f; done; fi
+i=0; for f in $(cat /tmp/demo-aside-$ID/list); do i=$((i+1)); mv /tmp/demo-aside-$ID/item$i $f; done
 git checkout -- .
 echo "{\"suite_passes_with_change\": $([ $r1 = 0 ] && echo true || echo false), \"demo_fails_with_change\": $([ $r2 != 0 ] && echo true || echo false), \"demo_passes_without_change\": $([ $r3 = 0 ] && echo true || echo false)}" > $S/confirmed.json
-cat $S/confirmed.json
+echo $ID; cat $S/confirmed.json
